@@ -13,10 +13,15 @@ func H_C19_cloudevents_pairs() {
 	if nondetBool() {
 		f.Signer = sig
 	}
-	e1 := &eventlogger.Event{Type: "t", Formatted: map[string][]byte{}, Payload: &cWithID{id: "id1"}}
+	var p1, p2 interface{} = &cWithID{id: "id1"}, &cWithID{id: "id2"}
+	if nondetBool() {
+		// payloads without an ID(): the formatter makes up a fresh id for each event
+		p1, p2 = &cPlain{}, &cPlain{}
+	}
+	e1 := &eventlogger.Event{Type: "t", Formatted: map[string][]byte{}, Payload: p1}
 	e2 := e1
 	if nondetBool() {
-		e2 = &eventlogger.Event{Type: "t", Formatted: map[string][]byte{}, Payload: &cWithID{id: "id2"}}
+		e2 = &eventlogger.Event{Type: "t", Formatted: map[string][]byte{}, Payload: p2}
 	}
 	ctx := context.Background()
 	k := symLen(0, 1)
